@@ -216,6 +216,29 @@ Proof.
     try discriminate.
 Qed.
 
+(* [metric_ok] is needed: a store that holds the SAME label tuple twice (what a
+   reload leaves behind if Store.Add hands the old datum over without removing
+   the preallocated one) is exported with two records under one path - a stale
+   0 at time 0 next to the live value. *)
+Definition w_dupm : metric :=
+  {| m_name := [102]; m_prog := [112]; m_kind := KCounter; m_type := TInt; m_hidden := false; m_keys := [];
+     m_lsets := [ {| l_vals := []; l_val := VInt 0; l_time := 0; l_expiry := 0 |};
+                  {| l_vals := []; l_val := VInt 7; l_time := 1700000000000000000; l_expiry := 0 |} ];
+     m_source := []; m_ranges := []; m_limit := 0 |}.
+Theorem C22_duplicate_tuple_refuted :
+  exists c m l1 l2,
+    ~ metric_ok m /\ In l1 (m_lsets m) /\ In l2 (m_lsets m) /\ l1 <> l2 /\
+    statsd_path c m l1 = statsd_path c m l2 /\ graphite_path c m l1 = graphite_path c m l2 /\
+    to_statsd c m l1 <> to_statsd c m l2 /\ length (export_statsd c [m]) = 2%nat.
+Proof.
+  exists w_cfg, w_dupm, {| l_vals := []; l_val := VInt 0; l_time := 0; l_expiry := 0 |},
+         {| l_vals := []; l_val := VInt 7; l_time := 1700000000000000000; l_expiry := 0 |}.
+  split.
+  - intros (_ & N). cbn in N. inversion N as [|? ? Hn _]. apply Hn. left. reflexivity.
+  - repeat split; try (left; reflexivity); try (right; left; reflexivity); try discriminate;
+      try (vm_compute; discriminate).
+Qed.
+
 (* JSON: whenever /json answers, the tree decodes to the same names, programs,
    kinds, types, keys, label sets, values and times, for every store whose
    data have their metric's type *)
@@ -305,6 +328,7 @@ Print Assumptions C22_graphite_one_record_each.
 Print Assumptions C22_format_labels_injective.
 Print Assumptions C22_format_labels_injective_clean.
 Print Assumptions C22_sanitisation_collision_refuted.
+Print Assumptions C22_duplicate_tuple_refuted.
 Print Assumptions C22_json_tree_roundtrip.
 Print Assumptions C22_json_fails_iff_nonfinite.
 Print Assumptions C22_json_nonfinite_refuted.
